@@ -69,9 +69,6 @@ def tpv? (s : String) : Option Tpv :=
     | _, _, _, _ => none
   | _ => none
 
-/-- received vectors of one station, given by their timestamps; the position field carries the index in the history -/
-def stpvs (ts : List Nat) : List StPV := (List.range ts.length).zipWith (fun (i : Nat) (t : Nat) => (⟨t, ⟨Int.ofNat i, 0⟩, true⟩ : StPV)) ts
-
 /-- "tst pai north east" groups of a `hist` line -/
 def groups4 : List String → Option (List (String × String × String × String))
   | [] => some []
@@ -117,11 +114,6 @@ def areaStep (_ : Unit) (t : List String) : Unit × String :=
       let p := egoAfter nm ⟨la, lo⟩ rs
       ((), s!"{p.lat} {p.lon}")
     | _, _, _, _ => ((), "bad-op")
-  | "newest" :: ts =>
-    -- index (in reception order) of the vector the location table holds after receptions with these timestamps
-    match ts.mapM nat? with
-    | some ts => ((), match locAfter (stpvs ts) with | some c => s!"{c.pos.lat}" | none => "none")
-    | none => ((), "bad-op")
   | ["F", s, a, b, x, y] =>
     match shape? s, rat? a, rat? b, rat? x, rat? y with
     | some s, some a, some b, some x, some y =>
